@@ -1189,5 +1189,6 @@ func extractCodecTables(x *extractor) {
 	u.pf("def recvReadsFull : Bool := %s\n", leanBool(r.readsFull))
 	u.pf("-- sendPacket: prefix = len(header) + len(payload) - 4\n")
 	u.pf("def sendLenExcludesPrefix : Bool := %s\n", leanBool(r.sendLenOK))
+	c.emitFxRecv()
 	u.pf("\nend Sftp.G\n")
 }
